@@ -1,8 +1,10 @@
 // C12 — the Postcard leaf codecs against the trait contracts of `Encoder` / `Decoder` (crates/serialize/src/postcard.rs):
 // closes the link between the generic impls (c12_generic.rs) and the concrete encoder/decoder, for EVERY tail.
+//@ rule R14
 #![feature(allocator_api)]
 #![allow(unused_imports, unused_variables, dead_code, non_snake_case)]
 use vstd::prelude::*;
+use vstd::string::StringSliceAdditionalSpecFns;
 use vstd::std_specs::convert::*;
 use std::io;
 use std::rc::Rc;
